@@ -115,6 +115,8 @@ impl WriteStallController {
 
 			// Re-read counts (now any notify_waiters() after notified creation will wake us)
 			let counts = self.provider.get_stall_counts();
+			#[cfg(surrealkv_verif)]
+			crate::verif::yp("stall:counts_read");
 
 			// Check if NOT stalled - return without awaiting
 			if counts.immutable_memtables < self.thresholds.memtable_limit
